@@ -150,7 +150,10 @@ def run_family(ctx, scns, D, level="model_checking", cap_per_worker=None, kinds=
         outcomes[scn.name] = len(r["summaries"])
         per.append({"scenario": scn.name, "executions": st["executions"], "default_decisions": st["default_decisions"], "distinct_outcomes": len(r["summaries"]), "wall_s": st["wall_s"]})
         for key, (what, prefix) in r["viols"].items():
-            viol.append(core.Violation(key, what, {"scenario": scenario_spec(scn), "choices": prefix}))
+            # the key carries the smallest number of scheduling deviations at which the failure was
+            # seen: the same symptom reachable with fewer deviations is a different (worse) failure
+            nd = explore.deviations(prefix)
+            viol.append(core.Violation(f"{key}:D{nd}", f"{what} [first seen with {nd} deviation(s) from the default schedule]", {"scenario": scenario_spec(scn), "choices": prefix}))
         if len(samples) < 4:
             top = sorted(r["summaries"].items(), key=lambda kv: -kv[1])[:2]
             samples.append({"scenario": scn.name, "D": D, "outcomes": [{"why": k[0], "req": k[1], "acc": k[2], "count": n} for k, n in top]})
